@@ -147,7 +147,7 @@ var scratchEntryFields = map[string]bool{"currSlots": true}
 func init() {
 	core.Register(&core.Rule{
 		Name: "R-SCRATCHINIT",
-		Doc: "Recycled scratch slices start from a constant fill. For every scalar slice field S of a state struct that some function constant-fills in a loop (capture slot buffers, match-length scratch): (A) in each driver (a function containing a constant fill of S: the fill loop or a call of a fill-only function such as Cache.Reset), every use of S (element read, passing S to a callee, a call of a helper that reads S) is preceded by an initialisation on every path from the function entry - a conditional reset is not enough; (B) if such a use sits in a loop that also contains a call which overwrites S (copy into S through a helper), the initialisation that precedes it must sit in the same loop, i.e. run per iteration; (C) for the capture working buffer (currSlots), whose readers are separate helpers, no entry point (exported method or function without module callers) may reach a reader without passing a driver that fills it. Stale slots make a later search report capture positions of an earlier one (C03, C13) and spans outside the haystack (C07).",
+		Doc: "Recycled scratch slices start from a constant fill. For every scalar slice field S of a state struct that some function constant-fills in a loop (capture slot buffers, match-length scratch): (A) in each driver (a function containing a constant fill of S: the fill loop or a call of a fill-only function such as Cache.Reset), every use of S (element read, passing S to a callee, a call of a helper that reads S) is preceded by an initialisation on every path from the function entry - a conditional reset is not enough; (B) if such a use sits in a loop that also contains a call which overwrites S (copy into S through a helper), the initialisation that precedes it must sit in the same loop, i.e. run per iteration; (C) for the capture working buffer (currSlots), whose readers are separate helpers, and for every scratch slice that has a dedicated fill-only method (Cache.Reset: the type itself says it must be reset per use), no entry point (exported method or function without module callers) may reach a reader without passing a driver that fills it - moving the fill into the constructor leaves the second search with the first one's values. Stale slots make a later search report capture positions of an earlier one (C03, C13) and spans outside the haystack (C07).",
 		Min: 7, NeedSSA: true,
 		Run: func(p *core.Prog) *core.RuleResult {
 			res := &core.RuleResult{}
@@ -393,8 +393,15 @@ func init() {
 						}
 					}
 				}
+				// a field with a dedicated fill-only method (Cache.Reset) is per-search scratch by construction
+				hasFillFn := false
+				for _, f := range sf.fillFn {
+					if f == S {
+						hasFillFn = true
+					}
+				}
 				for _, h := range helpers {
-					if !scratchEntryFields[S.Name()] {
+					if !scratchEntryFields[S.Name()] && !hasFillFn {
 						break
 					}
 					// (C) an entry point (exported method / function without module callers) must not reach a read of S uninitialised
@@ -408,7 +415,13 @@ func init() {
 						}
 					}
 					exported := h.Object() != nil && h.Object().Exported() && h.Signature.Recv() != nil
-					if !exported && ncallers > 0 {
+					// Entries are the public API of the root and meta packages (where the properties are observed). An exported
+					// method of a helper type in another package (SlotTable.GetSlot, unused) is not an entry: its callers are.
+					apiPkg := false
+					if pk := ownPkg(h); pk != nil && (pk.Path() == core.ModPath || strings.HasSuffix(pk.Path(), "/meta")) {
+						apiPkg = true
+					}
+					if !apiPkg || (!exported && ncallers > 0) {
 						continue
 					}
 					o := core.Obligation{Key: "R-SCRATCHINIT|" + core.FuncName(h) + "|entry does not reach an uninitialised read of " + S.Name(), Pos: p.Pos(h.Pos()), Nontrivial: true}
